@@ -1,8 +1,8 @@
 (* Properties_C03.v — theorem statements for C03 (electrostatic solution satisfies the discrete
    field equations and Gauss's law).  Model: AsmE.v (ESolver::AnalyzeProblem).  Proofs:
-   AsmOpsProofs.v, AsmEProofs.v.  Real-number reading. *)
+   AsmOpsProofs.v, AsmEProofs.v, AsmEFinish.v.  Real-number reading. *)
 From Coq Require Import ZArith List Bool Arith Lia Reals Lra.
-From XF Require Import Arith Sparse SparseProofs AsmOps AsmOpsProofs AsmE AsmEProofs.
+From XF Require Import Arith Sparse SparseProofs AsmOps AsmOpsProofs AsmE AsmEProofs AsmEFinish.
 Import ListNotations.
 Local Open Scope R_scope.
 
@@ -114,10 +114,69 @@ Theorem C03_charge_balance_columns :
 Proof. exact stiffness_column_sums_vanish. Qed.
 Print Assumptions C03_charge_balance_columns.
 
+(* 6. Conductors.  A conductor with prescribed charge owns the unknown k = nn + i.  The finishing
+      step of AnalyzeProblem rewrites row k so that, for EVERY vector V, the row holds exactly when
+          sum_{j<>k} M_kj (V_j - V_k) - condK_i V_k = 1e9 c q_i + condB_i ,
+      the statement that the flux leaving the conductor (couplings to free unknowns in row k,
+      couplings to fixed nodes eliminated into condK/condB) equals its prescribed charge; every
+      other row and right-hand-side entry is unchanged. *)
+Theorem C03_floating_conductor_row_is_charge_balance :
+  forall (P : eprob (F:=R)) (nn : nat) (cK cB : vecT R) (L : lin (F:=R)) (i : nat) (cc : ecirc (F:=R)) (V : vecT R),
+  wfL L -> (nn + i < ln L)%nat -> ctype cc = 0%nat ->
+  let k := (nn + i)%nat in
+  let L' := cond_row_step RA P nn cK cB L (i, cc) in
+  cond_rowsum RA L k (vget RA cK i) <> 0 ->
+  (Ax (lM L') V k = vget RA (lb L') k
+   <-> floating_balance L (vget RA cK i) (vget RA cB i) (adec RA 1 9 * cconst RA P * cq cc) k V)
+  /\ (forall r, r <> k -> (r < ln L)%nat ->
+        Ax (lM L') V r = Ax (lM L) V r /\ vget RA (lb L') r = vget RA (lb L) r).
+Proof. exact floating_conductor_row. Qed.
+Print Assumptions C03_floating_conductor_row_is_charge_balance.
+
+(* 6b. A conductor with prescribed voltage gets the row  K V_k = K V_c  and nothing else moves. *)
+Theorem C03_fixed_conductor_row :
+  forall (P : eprob (F:=R)) (nn : nat) (cK cB : vecT R) (L : lin (F:=R)) (i : nat) (cc : ecirc (F:=R)),
+  wfL L -> (nn + i < ln L)%nat -> ctype cc = 1%nat ->
+  let k := (nn + i)%nat in
+  let L' := cond_row_step RA P nn cK cB L (i, cc) in
+  let K := mget RA (lM L) 0 0 in
+  mget RA (lM L') k k = K /\ vget RA (lb L') k = K * cV cc /\ (forall p q, (p <> k \/ q <> k) -> mget RA (lM L') p q = mget RA (lM L) p q) /\
+  (forall r, r <> k -> vget RA (lb L') r = vget RA (lb L) r).
+Proof. exact fixed_conductor_row. Qed.
+Print Assumptions C03_fixed_conductor_row.
+
+(* 6c. the hypotheses of 6/6b hold at every step of the conductor loop *)
+Theorem C03_conductor_loop_keeps_system_well_formed :
+  forall (P : eprob (F:=R)) (nn : nat) (cK cB : vecT R) (L : lin (F:=R)),
+  wfL L -> (nn + length (circs P) <= ln L)%nat -> wfL (conductor_rows RA P nn cK cB L).
+Proof. exact conductor_rows_wf. Qed.
+Print Assumptions C03_conductor_loop_keeps_system_well_formed.
+
 (* non-vacuity: the freshly created system meets the hypotheses of the loop theorem *)
 Example C03_initial_state_ok : forall n bw prec lam,
   mat_wf (lM (lcreate RA n bw prec lam)) /\ length (lb (lcreate RA n bw prec lam)) = length (lM (lcreate RA n bw prec lam)).
 Proof.
   intros. cbn [lM lb lcreate]. split; [apply mat_wf_mcreate|].
   rewrite mcreate_length, vzero_length. reflexivity.
+Qed.
+
+(* non-vacuity of 6: a 3-unknown system whose last unknown is a floating conductor coupled to
+   unknown 1 and (through condK) to a fixed node *)
+Example C03_floating_row_premises_hold :
+  let L0 := lcreate RA 3 3 1 1 in
+  let L := lput (lput L0 (-2) 2 1) 2 2 2 in
+  wfL L /\ cond_rowsum RA L 2 1 <> 0.
+Proof.
+  cbn zeta. split.
+  - unfold wfL. cbn [lM lb ln lput lcreate]. rewrite !mput_length, mcreate_length, vzero_length.
+    repeat split. repeat apply mput_ok. apply mcreate_ok.
+  - rewrite cond_rowsum_spec. cbn [ln lput lcreate rsum Nat.eqb lM].
+    assert (H0 : mget RA (mput (mput (mcreate RA 3) (-2) 2 1) 2 2 2) 2 0 = 0).
+    { rewrite mget_mput_other; [|repeat apply mput_ok; apply mcreate_ok| rewrite ?mput_length, mcreate_length; lia ..| lia].
+      rewrite mget_mput_other; [|apply mcreate_ok| rewrite ?mcreate_length; lia ..| lia].
+      reflexivity. }
+    assert (H1 : mget RA (mput (mput (mcreate RA 3) (-2) 2 1) 2 2 2) 2 1 = -2).
+    { rewrite mget_mput_other; [|repeat apply mput_ok; apply mcreate_ok| rewrite ?mput_length, mcreate_length; lia ..| lia].
+      apply mget_mput_same; [apply mcreate_ok| rewrite mcreate_length; lia ..]. }
+    rewrite H0, H1. lra.
 Qed.
